@@ -14,6 +14,10 @@ class Injected(Exception):
     """Exception injected by the harness at a chosen (step, phase)."""
 
 
+class InjectedBase(BaseException):
+    """The same, but not derived from Exception (stands for KeyboardInterrupt / SystemExit aborting a run)."""
+
+
 def snap(M):
     """Live state of the model (references only; numbers may be solver variables)."""
     s = {
@@ -58,6 +62,8 @@ class Observer:
         if name in self.want and self._cur is not None:
             self._cur[name] = snap(M)
         if self.inject is not None and self.inject[0] == k and self.inject[1] == name:
+            if len(self.inject) > 2 and self.inject[2] == "base":
+                raise InjectedBase("%s@%s" % (name, k))
             raise Injected("%s@%s" % (name, k))
 
     @contextlib.contextmanager
